@@ -52,6 +52,7 @@ def c_algs_empty(s, r): s.algs = r.choice([[], ()])      # an explicitly empty a
 def c_origin_other(s, r):
     _keep_expected(s); s.origin = r.choice(["https://evil.example", "https://example.com.evil.test"]); authcat._l3_decoys(s, r)
 def c_origin_alias(s, r): authcat.f_origin_alias(s, r)
+def c_origin_pattern(s, r): authcat.f_origin_pattern(s, r)
 def c_origin_substring(s, r):
     s.exp_origin = "https://example.com:8443"
     s.origin = r.choice(["https://example.com", "example.com:8443", "https://example.com:844", ""])
@@ -78,7 +79,7 @@ def c_bs_without_be(s, r): s.flags = (s.flags | 0x10) & ~0x08
 CEREMONY = {
     "credential-alg-alias-not-in-allowed-list": c_alg_alias, "id-not-b64-rawid:padded-1": c_id_fault("padded-1"), "id-not-b64-rawid:last-char-spare-bits": c_id_fault("last-char-spare-bits"), "id-not-b64-rawid:newline-appended": c_id_fault("newline-appended"),
     "id-not-b64-rawid:standard-alphabet": c_id_fault("standard-alphabet"), "id-not-b64-rawid:char-appended": c_id_fault("char-appended"), "id-not-b64-rawid:empty": c_id_fault("empty"),
-    "origin-alias-spelling": c_origin_alias, "challenge-base64url-alias": c_challenge_b64_alias, "allowed-algorithms-empty": c_algs_empty,
+    "origin-alias-spelling": c_origin_alias, "origin-expected-read-as-pattern": c_origin_pattern, "challenge-base64url-alias": c_challenge_b64_alias, "allowed-algorithms-empty": c_algs_empty,
     "cd-type": c_type, "challenge-other": c_challenge_other, "challenge-trunc": c_challenge_trunc, "origin-other": c_origin_other,
     "origin-substring": c_origin_substring, "origin-list-absent": c_origin_list_absent, "token-binding-status": c_token_binding,
     "rp-id-other": c_rp_other, "up-clear-required": c_up_clear, "uv-clear-required": c_uv_clear, "no-attested-data": c_no_attested,
@@ -201,7 +202,10 @@ def tpm_san_unknown_vendor(s, r):
     # not in the TCG vendor-id registry (incl. the id the FIDO conformance tools use, test ids, near misses of registered ids)
     s.k["tpm_manufacturer"] = r.choice(["id:FFFFFFF0", "id:414d4400", "414D4400", "id:414D440", "id:FFFFF1D0", "id:00000000", "id:FFFFFFFF", "id:414D4401", "id:494E5444", "ID:414D4400"])
 def tpm_san_no_model(s, r): s.k["tpm_san"] = [("2.23.133.2.1", "id:414D4400"), ("2.23.133.2.3", "id:00010002")]
-def tpm_eku_wrong(s, r): s.k["tpm_eku"] = r.choice([["2.23.133.8.1"], ["1.3.6.1.5.5.7.3.2", "2.23.133.8.3"]])
+def tpm_eku_wrong(s, r):
+    from harness import srcdict
+    s.k["tpm_eku"] = r.choice([["2.23.133.8.1"], ["1.3.6.1.5.5.7.3.2", "2.23.133.8.3"], ["2.5.29.37.0"], ["2.23.133.8.2"], ["2.23.133.8.30"], ["2.5.29.37.0", "1.3.6.1.5.5.7.3.2"],
+                               ["1.3.6.1.5.5.7.3.1"], ["2.23.133.8"]] + [[o] for o in srcdict.oids() if o != "2.23.133.8.3"])
 def tpm_eku_absent(s, r): s.k["tpm_eku"] = None
 def tpm_bc_ca(s, r): s.k["tpm_bc"] = True
 def tpm_bc_absent(s, r): s.k["tpm_bc"] = None
@@ -294,6 +298,10 @@ FORMAT_FAULTS = {
         "jws-four-parts": sn_four_parts, "timestamp-old": set_k(sn_timestamp=(T0 - 3600) * 1000), "timestamp-future": set_k(sn_timestamp=(T0 + 3600) * 1000),
         "ver-missing": stmt_drop("ver"), "response-missing": stmt_drop("response"),
         "timestamp-infinity": set_k(sn_timestamp=float("inf")), "timestamp-minus-infinity": set_k(sn_timestamp=float("-inf")), "timestamp-1e300": set_k(sn_timestamp=1e300),
+        "leaf-cn-other-san-pattern": lambda s, r: s.k.update(sn_cn=r.choice(["integrity.attacker.example", "attest.android.com.evil.example", "Attest.Android.Com "]),
+                                                              sn_san=[r.choice(["*.com", "*", "*.*.com", "attest.android.*", "a*.[a-z]ndroid.co?", "attest.android.com.evil.example", "*.attest.android.com"])]),
+        "timestamp-in-another-unit": lambda s, r: s.k.update(sn_timestamp=r.choice([s.now - 2, float(s.now) - 1.5, (s.now - 2) * 10 ** 6, (s.now - 2) * 10 ** 9, (s.now - 2) // 60, (s.now - 2) * 1000 - 2 ** 32, (s.now - 2) * 1000 + 2 ** 32,
+                                                                                   -((s.now - 2) * 1000), (s.now - 2) * 1000 + 2 ** 64])),
         "timestamp-nan": set_k(sn_timestamp=float("nan")), "timestamp-old-cts-false": set_k(sn_timestamp=(T0 - 3600) * 1000, sn_cts=False),
     },
 }
@@ -315,6 +323,42 @@ def ch_expired_inter(s, r): s.n_inter = max(1, s.n_inter); s.k["pki_kw"] = dict(
 def ch_future_inter(s, r): s.n_inter = max(1, s.n_inter); s.k["pki_kw"] = dict(inter_nb=T0 + 10, inter_na=T0 + 400 * DAY)
 def ch_expired_root(s, r): s.k["pki_kw"] = dict(root_nb=T0 - 4000 * DAY, root_na=T0 - 10)
 def ch_future_root(s, r): s.k["pki_kw"] = dict(root_nb=T0 + 10, root_na=T0 + 4000 * DAY)
+def _oid_der(o):
+    from asn1crypto.core import ObjectIdentifier as _O
+    return _O(o).dump()
+def _decor_values():
+    from harness import srcdict
+    new = srcdict.oids()
+    vals = []
+    for o in (new + ["1.3.6.1.4.1.8301.3.5.1", "1.3.6.1.4.1.8301.3.5.2"]):
+        d = _oid_der(o)
+        vals += [b"\x30" + bytes([len(d)]) + d, d]
+    for b in srcdict.blobs():
+        vals += [b, b"\x30" + bytes([len(b) % 128]) + b]
+    vals += [b"\x05\x00", b"\x01\x01\xff", b"\x30\x00"]
+    return vals
+def decor_variants():
+    return len(_decor_values())
+def _extension_decor(s, r):
+    """extensions a verifier has no business honouring, on the leaf: every OID the CHANGED source newly mentions (harness/srcdict.py) and a few PKI
+    profile extensions, with values built from the other new OIDs / new binary literals - nothing in a certificate re-dates it or vouches for its
+    own chain.  s.k["_decor_n"] selects the value (all extensions carry value number n)."""
+    from harness import srcdict
+    oids = srcdict.oids() + ["1.3.6.1.4.1.8301.3.5", "1.3.6.1.5.5.7.1.3", "2.5.29.16", "1.3.6.1.4.1.11129.2.1.17.99"]
+    vals = _decor_values()
+    v = vals[s.k.get("_decor_n", 0) % len(vals)]
+    ext = []
+    for o in dict.fromkeys(oids):
+        if o in ("2.5.29.19", "2.5.29.15", "2.5.29.37", "2.5.29.17", "2.5.29.14", "2.5.29.35"):
+            continue
+        ext.append((o, v))
+    s.k["leaf_extra_exts"] = ext[:8]
+def _decorated(fault):
+    def f(s, r):
+        fault(s, r)
+        s.k["_decor_n"] = r.choice(range(decor_variants()))
+        _extension_decor(s, r)
+    return f
 def ch_bad_signature(s, r): s.k["leaf_signer"] = regsim.ec_key("unrelated_signer")
 def ch_missing_inter(s, r):
     s.n_inter = 2
@@ -360,8 +404,11 @@ CHAIN_FAULTS = {
     "attacker-ca-first-genuine-chain-as-intermediates": ch_attacker_ca_first,
     "self-signed-certificate-over-the-credential-key": ch_surrogate_self_signed, "pinned-leaf-expired": ch_pinned_leaf_expired, "pinned-leaf-not-yet-valid": ch_pinned_leaf_future,
 }
+# the same faults with unrecognised (non-critical) extensions on the leaf - see _extension_decor
+for _n in ("expired-leaf", "not-yet-valid-leaf", "expired-intermediate", "expired-root", "impostor-root-same-name", "missing-intermediate"):
+    CHAIN_FAULTS[_n + ":leaf-with-unrecognised-extensions"] = _decorated(CHAIN_FAULTS[_n])
 # chain faults whose no-anchor (pass-through) variant is not simply "accepted"
-NO_PASSTHROUGH_VARIANT = {"impostor-root-same-name", "attacker-ca-first-genuine-chain-as-intermediates", "self-signed-certificate-over-the-credential-key"}
+NO_PASSTHROUGH_VARIANT = {"impostor-root-same-name", "impostor-root-same-name:leaf-with-unrecognised-extensions", "attacker-ca-first-genuine-chain-as-intermediates", "self-signed-certificate-over-the-credential-key"}
 
 
 def applicable_kinds(fmt):
